@@ -24,4 +24,11 @@ def opInv (K : Type) [Add K] [Sub K] [Mul K] [Div K] [Neg K] [LT K] [DecidableLT
     | _, _, _ => "bad-op"
   | _ => "bad-op"
 
+/-- operations of this file: name ↦ handler on the remaining tokens (the first is the scalar mode) -/
+def opsC17 : List (String × (List String → String)) :=
+  [("inv", fun args => match args with
+      | "Q" :: rest => opInv Rat rest
+      | "F" :: rest => opInv Float rest
+      | _ => "bad-op")]
+
 end Drv
